@@ -21,7 +21,8 @@ VIOLATION_MSGS = ('postcondition not satisfied', 'precondition not satisfied', '
                   'possible arithmetic underflow/overflow', 'possible division by zero',
                   'invariant not satisfied', 'index out of bounds', 'unreachable',
                   'loop invariant', 'decreases not satisfied', 'possible bit shift underflow/overflow',
-                  'cannot show', 'failed to', 'recommendation not met')
+                  'cannot show', 'failed to', 'recommendation not met', 'precondition not met', 'index in bounds', 'not satisfied', 'not met',
+                  'might not', 'may not hold')
 UNDECIDED_MSGS = ('rlimit', 'resource limit', 'timed out', 'not supported', 'unsupported', 'internal error', 'ice')
 
 
@@ -82,6 +83,7 @@ def span_info(sp, scratch):
     f = sp.get('file_name', '')
     rel = f.replace(scratch + '/src/', '') if scratch in f else f
     exp = None
+    chain = []     # macro expansion chain: call sites from the innermost macro outwards
     e = sp.get('expansion')
     depth = 0
     while e and depth < 8:
@@ -89,10 +91,11 @@ def span_info(sp, scratch):
         ef = es.get('file_name', '')
         if scratch in ef:
             exp = (ef.replace(scratch + '/src/', ''), es.get('line_start'), e.get('macro_decl_name'))
+            chain.append({'file': ef.replace(scratch + '/src/', ''), 'line': es.get('line_start')})
         e = es.get('expansion')
         depth += 1
     return {'file': rel, 'line': sp.get('line_start'), 'line_end': sp.get('line_end'), 'primary': sp.get('is_primary'),
-            'label': sp.get('label'), 'expansion': exp,
+            'label': sp.get('label'), 'expansion': exp, 'chain': chain,
             'text': (sp.get('text') or [{}])[0].get('text', '').strip()[:200] if sp.get('text') else ''}
 
 
@@ -273,9 +276,18 @@ def attribute(res):
                     props |= set(t[1]); clause = '%s:%d' % (sp['file'], t[0])
                 elif sp['file'].endswith('verif_shim.rs') or sp['file'].endswith('verif_lemmas.rs'):
                     clause = '%s:%s' % (sp['file'], sp['line'])
+            is_clause = ('failed this' in lab or 'failed precondition' in lab)
             fn = fn_of_span(index, sp)
-            if fn and (site is None or sp['primary']):
-                if not ('failed this' in lab or 'failed precondition' in lab) or site is None:
+            if fn is None or is_clause:
+                # code expanded from a macro (e.g. concat_with_known_maxlen!): the site is the function that
+                # contains the macro call, found along the expansion chain
+                for c in sp.get('chain', []):
+                    f2 = fn_of_span(index, {'file': c['file'], 'line': c['line']})
+                    if f2 is not None and not is_clause:
+                        fn = f2
+                        break
+            if fn and (site is None or (sp['primary'] and not is_clause)):
+                if not is_clause or site is None:
                     site = fn
         if site is not None:
             # safety obligations and untagged clauses: every property the function's contract carries
